@@ -1428,6 +1428,92 @@ pub fn run_op<'c>(ctx: &'c Ctx<'c>, me: usize, st: &mut ActorState<'c>, opi: usi
             }
             out.push_str("replaced");
         }
+        // ---- real files, replaced atomically, read through the default reader with a scheduling point at every
+        //      file-system request (a reader that checks and then uses can be overtaken there)
+        Op::LiveInstall { name, cid } => {
+            let bytes = lock().as_ref().and_then(|w| w.contents.get(*cid).map(|c| c.bytes.clone()));
+            if let (Some(b), true) = (bytes, live_name_ok(name)) {
+                let ok = harness(|| {
+                    let dir = crate::world::live_dir();
+                    let _ = std::fs::create_dir_all(&dir);
+                    let tmp = format!("{dir}/.{name}.tmp");
+                    std::fs::write(&tmp, &b[..]).and_then(|_| std::fs::rename(&tmp, format!("{dir}/{name}"))).is_ok()
+                });
+                if ok {
+                    if let Some(w) = lock().as_mut() {
+                        w.live_hist.entry(name.clone()).or_default().push(*cid);
+                        w.stats.fault("live_atomic_replace");
+                        w.ev(0, format!("world live_install {name:?} c{cid}"));
+                    }
+                }
+                let _ = write!(out, "live_installed({ok})");
+            } else {
+                out.push_str("skip");
+            }
+        }
+        Op::LiveRead { name } => {
+            if live_name_ok(name) {
+                let path = harness(|| format!(":{}/{name}", crate::world::live_dir()));
+                let before = lock().as_ref().map_or(0, |w| w.live_hist.get(name).map_or(0, |h| h.len()));
+                crate::world::LIVE_CALL.with(|c| c.set(true));
+                let (r, _m) = measured(false, || TimeZone::from_posix_tz(&path));
+                crate::world::LIVE_CALL.with(|c| c.set(false));
+                harness(|| {
+                    // what the call may legitimately have seen: the version current when it started and every
+                    // version installed while it ran (replacement is atomic: never a mixture, never a prefix)
+                    let (allowed, contents): (Vec<usize>, Vec<Arc<Vec<u8>>>) = match lock().as_ref() {
+                        Some(w) => {
+                            let h = w.live_hist.get(name).cloned().unwrap_or_default();
+                            let from = before.saturating_sub(1);
+                            let a: Vec<usize> = h[from.min(h.len())..].to_vec();
+                            let c = a.iter().filter_map(|i| w.contents.get(*i).map(|c| c.bytes.clone())).collect();
+                            (a, c)
+                        }
+                        None => (vec![], vec![]),
+                    };
+                    let mut got = String::new();
+                    match &r {
+                        Ok(Ok(z)) => {
+                            got.push_str("Ok(");
+                            canon::zone(&mut got, z.as_ref());
+                            got.push(')');
+                        }
+                        Ok(Err(e)) => canon::err(&mut got, e),
+                        Err(p) => {
+                            let _ = write!(got, "PANIC({p})");
+                            panicked = Some(p.clone());
+                        }
+                    }
+                    let mut expected: Vec<String> = Vec::new();
+                    for b in &contents {
+                        let mut e = String::new();
+                        match catch_unwind(AssertUnwindSafe(|| TimeZone::from_tz_data(&b[..]))) {
+                            Ok(Ok(z)) => {
+                                e.push_str("Ok(");
+                                canon::zone(&mut e, z.as_ref());
+                                e.push(')');
+                            }
+                            Ok(Err(t)) => canon::err(&mut e, &tz::Error::from(t)),
+                            Err(_) => e.push_str("PANIC"),
+                        }
+                        expected.push(e);
+                    }
+                    let missing_ok = before == 0;
+                    let fine = expected.iter().any(|e| *e == got) || (missing_ok && matches!(&r, Ok(Err(tz::Error::Io(_))))) || panicked.is_some();
+                    if !fine {
+                        push_violation(armed, "C15.alone_vs_concurrent", "atomically-replaced-file-read-torn", format!("op #{opi} {}: the file was replaced atomically (contents {:?} were current during the call), but the default reader returned {} - neither version", op.text(), allowed, canon::short(&got)));
+                    }
+                    let _ = write!(out, "live({})", crate::prng::fnv(got.as_bytes()) % 1000);
+                    probe("live_file_read");
+                    if allowed.len() > 1 {
+                        probe("live_file_replaced_during_read");
+                    }
+                });
+                drop(r);
+            } else {
+                out.push_str("skip");
+            }
+        }
         // ---- environment
         Op::SetEnv { key, val } => {
             if env_key_ok(key) && !val.contains('\0') {
@@ -1525,6 +1611,10 @@ pub fn run_op<'c>(ctx: &'c Ctx<'c>, me: usize, st: &mut ActorState<'c>, opi: usi
     st.canon = out;
 }
 
+fn live_name_ok(n: &str) -> bool {
+    !n.is_empty() && n.len() <= 16 && n.bytes().all(|b| b.is_ascii_alphanumeric())
+}
+
 fn env_key_ok(k: &str) -> bool {
     matches!(k, "TZ" | "TZDIR" | "LANG" | "LC_ALL" | "LC_TIME" | "CWD" | "DECOYS")
 }
@@ -1601,6 +1691,9 @@ fn reset_env() {
 
 pub fn execute(sc: &Scenario, corpus: &mut Corpus, armed: Armed, opts: &ExecOpts) -> Outcome {
     reset_env();
+    if sc.actors.iter().any(|a| a.ops.iter().any(|o| matches!(o, Op::LiveInstall { .. } | Op::LiveRead { .. }))) {
+        let _ = std::fs::remove_dir_all(crate::world::live_dir());
+    }
     let contents = resolve_contents(sc, corpus);
     let mut files = BTreeMap::new();
     for f in &sc.files {
@@ -1630,6 +1723,7 @@ pub fn execute(sc: &Scenario, corpus: &mut Corpus, armed: Armed, opts: &ExecOpts
             violations: Vec::new(),
             log_events: opts.log_events,
             arrived: 0,
+            live_hist: BTreeMap::new(),
         });
     }
     *shared() = Some(Shared { pool: (0..NPOOL).map(|_| None).collect(), records: Vec::new() });
